@@ -27,6 +27,7 @@ type Call struct {
 	Keep   bool   `json:"keep_rm,omitempty"` // the rule map is ONE object per client, edited in place from call to call (as a package-level RM would be), not built afresh
 	TagSeq bool   `json:"tag_seq,omitempty"` // repeated calls (Plan.Repeat): the tag name gets the iteration number appended - a tag name nobody has used before, every time
 	U      string `json:"u,omitempty"`       // histories with global registrations: the suffix that makes this history's rule names unique in the process
+	N      int    `json:"n,omitempty"`       // EPar: the number the rule text / tag name / key / struct type is made from
 }
 
 const (
@@ -147,10 +148,16 @@ func (c Call) String() string {
 	if c.Fn != 0 {
 		s += fmt.Sprintf(" fn%d", c.Fn)
 	}
+	if c.Entry == EPar {
+		return fmt.Sprintf("parametric(%s, n=%d, %s)", parFamName(c.Rule), c.N, []string{"accepted alone", "rejected alone"}[c.Val%2])
+	}
 	return s + ")"
 }
 
 func (c Call) Key() string {
+	if c.N != 0 {
+		return fmt.Sprintf("%s|%d|%d|%s|%d|%d|%d|%s|n%d", c.Entry, c.Type, c.Val, c.Tag, c.Rule, c.Fn, c.Shape, c.U, c.N)
+	}
 	return fmt.Sprintf("%s|%d|%d|%s|%d|%d|%d|%s", c.Entry, c.Type, c.Val, c.Tag, c.Rule, c.Fn, c.Shape, c.U)
 }
 
@@ -709,6 +716,8 @@ func (c Call) Exec() (res Result) {
 		k, v, m := valid.ParseValidNameKV(a.str)
 		res.Handed = append(res.Handed, k, v, m)
 		res.Canon = "list:" + k + "\x1f" + v + "\x1f" + m
+	case EPar:
+		c.execPar(&res, errRes)
 	case EHelper:
 		s := c.helper()
 		res.Handed = append(res.Handed, s)
